@@ -1,6 +1,6 @@
 (* C04 — Gherkin parsing is faithful: structure, text, tags, step types and line numbers.
    Statements only; proofs are in theories/GherkinProofs.v. *)
-From BV Require Import Base UStr GherkinTypes Gherkin GherkinProofs GherkinRowProofs GherkinBlockProofs GherkinTagProofs.
+From BV Require Import Base UStr GherkinTypes Gherkin GherkinProofs GherkinRowProofs GherkinBlockProofs GherkinTagProofs GherkinTableProofs.
 From BVGen Require Import GherkinTables.
 
 (* In every one of the languages of behave.i18n, every alias of every structural keyword, written as "<alias>: x", is
@@ -132,6 +132,20 @@ Print Assumptions a_feature_of_tagged_scenarios_is_parsed_into_exactly_what_was_
 Example an_english_tag_line_with_two_tags_and_a_comment :
   tag_line english [32; 32; 64; 119; 105; 112; 32; 64; 115; 108; 111; 119; 32; 35; 32; 120]%N [[119; 105; 112]; [115; 108; 111; 119]]%N.
 Proof. exact an_english_tag_line. Qed.
+
+(* with tags and step tables, up to and including the end of the text: every step carries the
+   table written under it - the heading, the rows in file order with every cell (row_cells: the
+   cells of a row line, escaped pipes included) and each row with the number of its line -,
+   a table may be followed by a step, a tagged or untagged scenario, or the end of the text *)
+Theorem a_feature_with_tags_and_step_tables_is_parsed_into_exactly_what_was_written :
+  forall kw code fline falias fname scens,
+  feature_line kw fline falias fname -> Forall (rscen_ok kw) scens ->
+  exists m',
+    finish_table (fold_left feed (fline :: flat_map rscen_lines scens) (ROk (init_state code kw VFeature StInitial))) = ROk m' /\
+    m_table m' = None /\
+    option_map fin_feature (m_feat m') = Some (mkPFeat falias fname 1 [] [] None (expected_rich scens 1) code).
+Proof. exact a_feature_with_tags_and_step_tables_is_read_back_exactly. Qed.
+Print Assumptions a_feature_with_tags_and_step_tables_is_parsed_into_exactly_what_was_written.
 
 (* non-vacuity: a German document with header, tags over two lines with a comment, a background, an outline with examples,
    a doc-string and a table with an escaped pipe, indentation, blank and comment lines *)
